@@ -57,11 +57,19 @@ def build_libs(verbose=False):
         os.rename(tmp, out)
     except OSError:
         shutil.rmtree(tmp, ignore_errors=True)
-    # remove stale builds
-    for d in glob.glob(os.path.join(root, "*")):
+    # remove stale builds (not while several trees are being checked at once: VERIF_KEEP_BUILDS)
+    for d in ([] if os.environ.get("VERIF_KEEP_BUILDS") else glob.glob(os.path.join(root, "*"))):
         if os.path.basename(d) not in (key, "ast") and ".tmp" not in d:
             shutil.rmtree(d, ignore_errors=True)
     return out
+
+
+def use_repo_sources():
+    """Experiments against a scratch tree (CIDERPRESS_REPO): native replays import its Python sources too, not /repo's editable install."""
+    if REPO != "/repo" and REPO not in sys.path:
+        sys.path.insert(0, REPO)
+        # replays that start a fresh interpreter (process-global caches, OMP_NUM_THREADS) must see the same tree
+        os.environ["PYTHONPATH"] = REPO + (os.pathsep + os.environ["PYTHONPATH"] if os.environ.get("PYTHONPATH") else "")
 
 
 def install_shim():
@@ -70,8 +78,7 @@ def install_shim():
         return _INSTALLED[0]
     out = build_libs()
     import numpy
-    if REPO != "/repo" and REPO not in sys.path:
-        sys.path.insert(0, REPO)        # experiments against a scratch tree: its Python sources too, not only its C sources
+    use_repo_sources()
     import ciderpress.lib.load as L
     orig = L.load_library
 
